@@ -169,6 +169,49 @@ Section Part.
         + now apply IHa. }
     rewrite E. simpl. rewrite (IH (acc ++ [b])); rewrite <- app_assoc; simpl; auto.
   Qed.
+  (** ** abstract partitions: blocks given as lists *)
+  Inductive mdisj : list (list T) -> Prop :=
+  | md_nil : mdisj []
+  | md_cons : forall B R, (forall C x, In C R -> In x B -> ~ In x C) -> mdisj R -> mdisj (B :: R).
+
+  Definition mpart (S : list T) (R : list (list T)) : Prop :=
+    Forall (fun B => B <> []) R /\ mdisj R /\ (forall x, In x S <-> exists B, In B R /\ In x B).
+
+  (** the blocks of [P] are, as sets, exactly the blocks of [R] *)
+  Definition matches (P : list set0) (R : list (list T)) : Prop :=
+    (forall b, In b P -> exists B, In B R /\ set_equiv (vm b) B) /\
+    (forall B, In B R -> exists b, In b P /\ set_equiv (vm b) B).
+
+  Definition complete (S : list T) (L : list set1) : Prop :=
+    forall R, mpart S R -> exists P, In P L /\ matches (vm P) R.
+
+  Lemma mdisj_common : forall R B C x, mdisj R -> In B R -> In C R -> In x B -> In x C -> B = C.
+  Proof.
+    induction 1 as [|D R HD M IH]; intros HB HC HxB HxC; [destruct HB|].
+    destruct HB as [<-|HB]; destruct HC as [<-|HC]; auto.
+    - exfalso. exact (HD C x HC HxB HxC).
+    - exfalso. exact (HD B x HB HxC HxB).
+  Qed.
+
+  Lemma mdisj_shrink : forall (f : list T -> bool) (g : list T -> list T) R,
+    (forall B x, In x (g B) -> In x B) -> mdisj R -> mdisj (filter f (map g R)).
+  Proof.
+    intros f g R Hg. induction 1 as [|B R HB M IH]; simpl; [constructor|].
+    destruct (f (g B)); [|exact IH]. constructor; [|exact IH].
+    intros C x HC Hx. apply filter_In in HC. destruct HC as [HC _]. apply in_map_iff in HC. destruct HC as (C0 & <- & HC0).
+    intros Hc. apply (HB C0 x HC0); [now apply Hg|now apply Hg].
+  Qed.
+
+  Lemma mpart_equiv : forall S S' R, (forall x, In x S <-> In x S') -> mpart S R -> mpart S' R.
+  Proof. intros S S' R H (F & D & C). split; [exact F|]. split; [exact D|]. intros x. rewrite <- (H x). apply C. Qed.
+
+  Lemma matches_perm : forall P P' R, Permutation P P' -> matches P R -> matches P' R.
+  Proof.
+    intros P P' R HP (M1 & M2). split.
+    - intros b Hb. apply M1. eapply Permutation_in; [symmetry; exact HP|exact Hb].
+    - intros B HB. destruct (M2 B HB) as (b & Hb & Hs). exists b. split; [eapply Permutation_in; eauto|exact Hs].
+  Qed.
+
   (** ** extending a partition of [rest] by a new element [m0] *)
   Section Ext.
     Variable k : kind.
@@ -547,6 +590,140 @@ Section Part.
       apply Forall_app. split; [|now apply IH]. constructor; [simpl; lia|].
       apply Forall_forall. intros M HM. destruct (pin_ext _ _ _ Hpin M HM) as (_ & _ & L). simpl in L. lia.
     Qed.
+    (** ** completeness *)
+    Lemma pin_complete : forall pre post r, pin pre post r -> forall b, In b post ->
+      exists pre' post' u, pre ++ post = pre' ++ b :: post' /\ isunion u b /\ In (mkv Unordered (pre' ++ u :: post')) r.
+    Proof.
+      induction 1 as [pre|pre b0 post u r HU Hpin IH]; intros b Hb; [destruct Hb|].
+      destruct Hb as [<-|Hb].
+      - exists pre, post, u. split; [reflexivity|]. split; [exact HU|now left].
+      - destruct (IH b Hb) as (pre' & post' & u' & E & HU' & Hin). exists pre', post', u'.
+        split; [rewrite <- E, <- app_assoc; reflexivity|]. split; [exact HU'|now right].
+    Qed.
+
+    Lemma pl_in : forall parts r P, pl parts r -> In P parts ->
+      exists Pm hd r1, Permutation Pm (vm P) /\ ishead hd /\ pin [] Pm r1 /\
+        In (mkv Unordered (hd :: Pm)) r /\ (forall M, In M r1 -> In M r).
+    Proof.
+      induction 1 as [|P0 parts Pm hd r1 r PPm Hhd Hpin Hpl IH]; intros HP; [destruct HP|].
+      destruct HP as [<-|HP].
+      - exists Pm, hd, r1. split; [exact PPm|]. split; [exact Hhd|]. split; [exact Hpin|]. split; [now left|].
+        intros M HM. apply in_or_app. left. now right.
+      - destruct (IH HP) as (Pm' & hd' & r1' & A & B & C & D & E). exists Pm', hd', r1'.
+        split; [exact A|]. split; [exact B|]. split; [exact C|]. split; [apply in_or_app; now right|].
+        intros M HM. apply in_or_app. right. now apply E.
+    Qed.
+
+    Definition nonemptyb (B : list T) : bool := match B with [] => false | _ => true end.
+    Definition strip_all (R : list (list T)) : list (list T) := filter nonemptyb (map (s_rem m0) R).
+
+    Lemma eq_dec_T : forall x y : T, {x = y} + {x <> y}.
+    Proof. intros x y. destruct (eqb x y) eqn:E; [left; now apply eqb_spec|right; intros H; apply eqb_spec in H; congruence]. Qed.
+
+    Lemma strip_all_in : forall R C, In C (strip_all R) <-> exists B, In B R /\ C = s_rem m0 B /\ C <> [].
+    Proof.
+      intros R C. unfold strip_all. rewrite filter_In, in_map_iff. split.
+      - intros ((B & <- & HB) & Hne). exists B. split; [exact HB|]. split; [reflexivity|]. destruct (s_rem m0 B); [discriminate|congruence].
+      - intros (B & HB & -> & Hne). split; [exists B; auto|]. destruct (s_rem m0 B); [congruence|reflexivity].
+    Qed.
+
+    Lemma strip_all_mpart : forall R, mpart full R -> mpart rest (strip_all R).
+    Proof.
+      intros R (F & D & C). split; [|split].
+      - apply Forall_forall. intros B HB. apply strip_all_in in HB. destruct HB as (_ & _ & _ & Hne). exact Hne.
+      - apply mdisj_shrink; [|exact D]. intros B x Hx. apply (s_rem_In T eqb eqb_spec) in Hx. tauto.
+      - intros x. split.
+        + intros Hx. destruct (proj1 (C x) (or_intror Hx)) as (B & HB & HxB).
+          assert (Hxr : In x (s_rem m0 B)).
+          { apply (s_rem_In T eqb eqb_spec). split; [exact HxB|]. intros ->. contradiction. }
+          exists (s_rem m0 B). split; [|exact Hxr]. apply strip_all_in. exists B. split; [exact HB|]. split; [reflexivity|].
+          intros E. rewrite E in Hxr. destruct Hxr.
+        + intros (C0 & HC0 & Hx). apply strip_all_in in HC0. destruct HC0 as (B & HB & -> & _).
+          apply (s_rem_In T eqb eqb_spec) in Hx. destruct Hx as [HxB Hne].
+          assert (In x full) by (apply C; exists B; auto). destruct H as [<-|H]; [congruence|exact H].
+    Qed.
+
+    Lemma disj_not_twice : forall pre b post, disj (pre ++ b :: post) -> vm b <> [] -> ~ In b pre /\ ~ In b post.
+    Proof.
+      intros pre b post D Hne. destruct (nonempty_in _ Hne) as (x & Hx).
+      assert (Dp : disj (b :: pre ++ post)) by (eapply disj_perm; [symmetry; apply Permutation_middle|exact D]).
+      destruct (disj_inv _ _ Dp) as [Hb _].
+      split; intros Hc; apply (Hb b x); auto; apply in_or_app; [now left|now right].
+    Qed.
+
+    Lemma ext_complete : forall parts r, pl parts r -> Forall okpart parts -> complete rest parts -> complete full r.
+    Proof.
+      intros parts r Hpl Hok Hc R HR.
+      destruct (Hc (strip_all R) (strip_all_mpart R HR)) as (P & HP & (MP1 & MP2)).
+      rewrite Forall_forall in Hok. destruct (Hok P HP) as (_ & HPP).
+      destruct (pl_in parts r P Hpl HP) as (Pm & hd & r1 & PPm & Hhd & Hpin & HQ1 & Hr1).
+      assert (HPm : is_part k rest Pm) by (eapply is_part_perm; [symmetry; exact PPm|exact HPP]).
+      pose proof HR as (FR & DR & CR).
+      destruct (proj1 (CR m0) (or_introl eq_refl)) as (B0 & HB0 & Hm0).
+      assert (Hother : forall B, In B R -> ~ In m0 B -> s_rem m0 B = B /\ In B (strip_all R)).
+      { intros B HB Hn. assert (E : s_rem m0 B = B) by (now apply (s_rem_notin T eqb eqb_spec)).
+        split; [exact E|]. apply strip_all_in. exists B. split; [exact HB|]. split; [now symmetry|].
+        rewrite Forall_forall in FR. now apply FR. }
+      assert (Hm0B : forall B, In B R -> In m0 B -> B = B0).
+      { intros B HB Hm. eapply (mdisj_common R B B0 m0); eauto. }
+      assert (MPm1 : forall b, In b Pm -> exists C, In C (strip_all R) /\ set_equiv (vm b) C).
+      { intros b Hb. apply MP1. eapply Permutation_in; eauto. }
+      assert (MPm2 : forall C, In C (strip_all R) -> exists b, In b Pm /\ set_equiv (vm b) C).
+      { intros C HC. destruct (MP2 C HC) as (b & Hb & Hs). exists b. split; [|exact Hs]. eapply Permutation_in; [symmetry; exact PPm|exact Hb]. }
+      destruct (s_rem m0 B0) as [|y B0'] eqn:EB0.
+      - (* the block of m0 is {m0}: the partition that starts with head *)
+        exists (mkv Unordered (hd :: Pm)). split; [exact HQ1|]. simpl vm.
+        assert (HB0eq : forall x, In x B0 <-> x = m0).
+        { intros x. split; [|intros ->; exact Hm0]. intros Hx. destruct (eq_dec_T x m0) as [E|E]; [exact E|].
+          assert (In x (s_rem m0 B0)) by (apply (s_rem_In T eqb eqb_spec); auto). rewrite EB0 in H. destruct H. }
+        split.
+        + intros b [<-|Hb].
+          * exists B0. split; [exact HB0|]. intros x. destruct Hhd as (_ & _ & Hh). rewrite (Hh x), (HB0eq x). tauto.
+          * destruct (MPm1 b Hb) as (C & HC & Hs). apply strip_all_in in HC. destruct HC as (B & HB & -> & Hne).
+            exists B. split; [exact HB|].
+            destruct (in_dec eq_dec_T m0 B) as [Hm|Hm].
+            -- exfalso. rewrite (Hm0B B HB Hm), EB0 in Hne. congruence.
+            -- rewrite (proj1 (Hother B HB Hm)) in Hs. exact Hs.
+        + intros B HB. destruct (in_dec eq_dec_T m0 B) as [Hm|Hm].
+          * rewrite (Hm0B B HB Hm). exists hd. split; [now left|]. intros x. destruct Hhd as (_ & _ & Hh). rewrite (Hh x), (HB0eq x). tauto.
+          * destruct (Hother B HB Hm) as [_ Hin]. destruct (MPm2 B Hin) as (b & Hb & Hs). exists b. split; [now right|exact Hs].
+      - (* the block of m0 has other members: they form a block b of P; take the partition that joins m0 to b *)
+        assert (HB0' : In (y :: B0') (strip_all R)).
+        { apply strip_all_in. exists B0. split; [exact HB0|]. split; [now symmetry|discriminate]. }
+        destruct (MPm2 _ HB0') as (b & Hb & Hsb).
+        destruct (pin_complete _ _ _ Hpin b Hb) as (pre & post & u & EPm & HU & HQ). simpl in EPm.
+        exists (mkv Unordered (pre ++ u :: post)). split; [now apply Hr1|]. simpl vm.
+        assert (HuB0 : set_equiv (vm u) B0).
+        { intros x. destruct HU as (_ & _ & Hu). rewrite (Hu x), (Hsb x), <- EB0, (s_rem_In T eqb eqb_spec). split.
+          - intros [->|[H _]]; auto.
+          - intros Hx. destruct (eq_dec_T x m0); auto. }
+        pose proof HPm as (FPm & DPm & _). rewrite EPm in DPm.
+        assert (Hbne : vm b <> []).
+        { rewrite Forall_forall in FPm. now destruct (FPm b Hb) as (_ & _ & ?). }
+        destruct (disj_not_twice pre b post DPm Hbne) as [Nbpre Nbpost].
+        assert (Hrest : forall c, In c pre \/ In c post -> In c Pm /\ c <> b).
+        { intros c Hc'. split; [rewrite EPm; apply in_or_app; destruct Hc'; [now left|right; now right]|].
+          intros ->. tauto. }
+        split.
+        + intros c Hc'. apply in_app_or in Hc'. destruct Hc' as [Hc'|[<-|Hc']]; [|exists B0; auto|].
+          1,2: (destruct (Hrest c) as [HcPm Hcb]; [tauto|]);
+               destruct (MPm1 c HcPm) as (C & HC & Hs); apply strip_all_in in HC; destruct HC as (B & HB & -> & Hne);
+               exists B; (split; [exact HB|]);
+               (destruct (in_dec eq_dec_T m0 B) as [Hm|Hm]; [|now rewrite (proj1 (Hother B HB Hm)) in Hs]);
+               exfalso; apply Hcb; rewrite (Hm0B B HB Hm), EB0 in Hs;
+               rewrite Forall_forall in FPm; destruct (FPm c HcPm) as (_ & _ & Hcne); destruct (nonempty_in _ Hcne) as (x & Hx);
+               rewrite <- EPm in DPm; apply (disj_common Pm c b x DPm HcPm Hb Hx); apply Hsb, Hs, Hx.
+        + intros B HB. destruct (in_dec eq_dec_T m0 B) as [Hm|Hm].
+          * rewrite (Hm0B B HB Hm). exists u. split; [apply in_or_app; right; now left|exact HuB0].
+          * destruct (Hother B HB Hm) as [_ Hin]. destruct (MPm2 B Hin) as (c & Hc' & Hs).
+            exists c. split; [|exact Hs]. rewrite EPm in Hc'. apply in_app_or in Hc'. destruct Hc' as [Hc'|[<-|Hc']].
+            -- apply in_or_app. now left.
+            -- exfalso. rewrite Forall_forall in FR. destruct (nonempty_in _ (FR B HB)) as (x & Hx).
+               assert (HxB0 : In x B0).
+               { assert (In x (s_rem m0 B0)) by (rewrite EB0; apply Hsb, Hs, Hx). apply (s_rem_In T eqb eqb_spec) in H. tauto. }
+               apply Hm. rewrite (mdisj_common R B B0 x DR HB HB0 Hx HxB0). exact Hm0.
+            -- apply in_or_app. right. now right.
+    Qed.
   End Ext.
   Lemma pdistinct_perm : forall l l', Permutation l l' -> pdistinct l -> pdistinct l'.
   Proof.
@@ -576,7 +753,8 @@ Section Part.
       Forall (goodpart (vk s) (vm s)) (vm Ps) /\
       pdistinct (vm Ps) /\
       (forall j, cnt j (vm Ps) = stirling2 (length (vm s)) j) /\
-      Forall (fun P => (length (vm P) <= length (vm s))%nat) (vm Ps).
+      Forall (fun P => (length (vm P) <= length (vm s))%nat) (vm Ps) /\
+      complete (vm s) (vm Ps).
   Proof.
     induction fuel as [|f IH]; intros s t Hs Hf; [lia|].
     destruct s as [k l]. simpl in Hf. cbn [partitions]. unfold vsize. simpl vm. simpl vk.
@@ -584,12 +762,15 @@ Section Part.
     - (* the empty set: the single partition without blocks *)
       simpl Nat.eqb. cbn iota. unfold vnew. cbn [vadd]. rewrite vadd1_unordered. simpl existsb. cbn [rbind app].
       exists (mkv Unordered [mkv Unordered []]), t. split; [reflexivity|]. split; [reflexivity|]. simpl vm.
-      split; [|split; [|split]].
+      split; [|split; [|split; [|split]]].
       + constructor; [|constructor]. split; [split; [reflexivity|constructor]|].
         split; [constructor|]. split; [constructor|]. intros y. simpl. split; [tauto|]. intros (b & [] & _).
       + constructor; [intros b []|constructor].
       + intros [|j]; reflexivity.
       + constructor; [simpl; lia|constructor].
+      + intros R (FR & _ & CR). exists (mkv Unordered []). split; [now left|]. split; [intros b []|].
+        intros B HB. exfalso. rewrite Forall_forall in FR. destruct (nonempty_in _ (FR B HB)) as (x & Hx).
+        apply (CR x). exists B. auto.
     - rewrite <- El in *. assert (Hlen : length l <> 0%nat) by (subst l; simpl; lia).
       replace (Nat.eqb (length l) 0) with false by (symmetry; apply Nat.eqb_neq; exact Hlen).
       destruct (vall_repr T cmp draw k l l t Hs) as (members & t1 & Ha & Hp & _).
@@ -611,8 +792,8 @@ Section Part.
       pose proof (repr_inv T cmp _ _ _ Rt) as Itail.
       pose proof (repr_perm T cmp _ _ _ Rt) as Ptail.
       assert (Ltail : length lt0 = length rest0) by (apply Permutation_length; exact Ptail).
-      destruct (IH (mkv k lt0) t1 Itail ltac:(simpl in *; lia)) as (PsT & t2 & HPsT & KPsT & FPsT & DPsT & CPsT & BPsT).
-      rewrite HPsT. cbn [rbind]. destruct PsT as [kpt lpt]. simpl in KPsT, FPsT, DPsT, CPsT, BPsT. subst kpt.
+      destruct (IH (mkv k lt0) t1 Itail ltac:(simpl in *; lia)) as (PsT & t2 & HPsT & KPsT & FPsT & DPsT & CPsT & BPsT & ComT).
+      rewrite HPsT. cbn [rbind]. destruct PsT as [kpt lpt]. simpl in KPsT, FPsT, DPsT, CPsT, BPsT, ComT. subst kpt.
       destruct (all_spec set1 draw Unordered lpt t2) as (parts & t3 & Hparts & Pparts & _).
       unfold vall. simpl vk. simpl vm. rewrite Hparts. cbn [rbind].
       assert (Nm0' : ~ In m0 lt0) by (intros Hc; apply Nm0; eapply Permutation_in; eauto).
@@ -629,7 +810,7 @@ Section Part.
         - intros [<-|Hy]; [apply (Permutation_in _ Hp); now left|apply (Permutation_in _ Hp); right; eapply Permutation_in; eauto].
         - intros Hy. apply (Permutation_in _ (Permutation_sym Hp)) in Hy. destruct Hy as [<-|Hy]; [now left|right].
           eapply Permutation_in; [symmetry; exact Ptail|exact Hy]. }
-      split; [|split; [|split]].
+      split; [|split; [|split; [|split]]].
       + eapply Forall_impl; [|exact FPs]. intros M (IM & PM). split; [exact IM|]. eapply is_part_equiv; eauto.
       + exact DPs.
       + intros j. rewrite (pl_cnt k m0 parts r Hpl j). rewrite <- Hlm. simpl length.
@@ -639,6 +820,10 @@ Section Part.
         * rewrite (cnt_perm j' parts lpt Pparts), (CPsT j'), Ltail. simpl stirling2. lia.
       + rewrite <- Hlm. simpl length. rewrite <- Ltail. apply (pl_blocks k m0 parts r (length lt0) Hpl).
         eapply Permutation_Forall; [symmetry; exact Pparts|exact BPsT].
+      + intros R HR. apply (ext_complete k m0 lt0 Nm0' parts r Hpl Hok).
+        * intros R' HR'. destruct (ComT R' HR') as (P & HP & HM). exists P. split; [|exact HM].
+          eapply Permutation_in; [symmetry; exact Pparts|exact HP].
+        * eapply mpart_equiv; [|exact HR]. intros y. symmetry. apply Hms.
   Qed.
 
   Local Open Scope nat_scope.
@@ -670,7 +855,7 @@ Section Part.
     partitions T eqb cmp draw fuel s t = Ok (Ps, t') -> length (vm Ps) = bell (length (vm s)).
   Proof.
     intros fuel s t Ps t' Hs Hf HP.
-    destruct (partitions_spec fuel s t Hs Hf) as (Ps0 & t0 & H0 & _ & _ & _ & Hc & Hb).
+    destruct (partitions_spec fuel s t Hs Hf) as (Ps0 & t0 & H0 & _ & _ & _ & Hc & Hb & _).
     rewrite HP in H0. inversion H0; subst Ps0 t0.
     unfold bell. rewrite (sum_cnt (vm Ps) (S (length (vm s)))).
     - f_equal. apply map_ext. intros j. apply Hc.
